@@ -258,6 +258,10 @@ def run(ctx):
                             "expression and for every package text; compared: exact resolved tree or exception class; also AHB expressions with abbreviations inside their parts. "
                             "Oracle: resolved tree == parse(bracketed textual substitution) exactly; unknown package -> NotImplementedError; non-trivial = expressions containing an abbreviation")
     ctx.sample(metas[1] if len(metas) > 1 else {})
+    # a package resolver that really suspends, with different latencies per occurrence: every occurrence is still replaced by ITS package (run last: re-configures the injector)
+    from vlib import latency
+
+    ctx.add_eval(latency.pkg_latency_oracle(ctx, "oracle: every package occurrence is replaced by its own package expression, however long the single look-ups take"))
     return finish(ctx, assumptions=["C10_textual_substitution is about the parser MODEL applied to the substituted text; that ahbicht's parser returns the same tree for that text is the oracle (exact tree equality) and the C01 correspondence",
                                     "repeatabilities n..m with n>m abort with ValueError (attrs validator); excluded from the substitution oracle, covered by the correspondence"])
 
